@@ -130,7 +130,12 @@ def run(rep, tier, seed):
         sig = [a for a in d.sigma if a != c01.FOREIGN]
         d2 = d
         walks = [w for w in c01.live_walks(d2, per, rnd, maxlen=10) if w and c01.FOREIGN not in w and d.out[d.run(w)] == "ACCEPT"]
-        for v in walks[:per]:
+        # a long sequence too (one loop of the automaton pumped): TLC's Acceptable is quadratic in the length, so 40-60
+        # children in general and 257+ only for a few small rules in the thorough tier
+        if len(sig) <= 8:
+            reps = (257, 300) if (tier == "thorough" and len(sig) <= 3) else (40, 60)
+            walks += [w for w in c01.pumped_words(d2, rnd, count=1, reps=reps) if w and c01.FOREIGN not in w and d.out[d.run(w)] == "ACCEPT"][:1]
+        for v in walks[:per + 1]:
             pos = rnd.randrange(len(v))
             w = list(v[:pos] + v[pos + 1:])
             c = v[pos]
